@@ -352,7 +352,21 @@ def to_py(node):
     np = _np()
     t = node["t"]
     if t == "map":
-        return {k: to_py(v) for k, v in node["items"]}
+        d = {k: to_py(v) for k, v in node["items"]}
+        # the statement says "mappings": also Mapping types that are not dict subclasses (same model value)
+        if node.get("as") == "proxy":
+            import types
+
+            return types.MappingProxyType(d)
+        if node.get("as") == "chain":
+            import collections
+
+            return collections.ChainMap(d)
+        if node.get("as") == "ordered":
+            import collections
+
+            return collections.OrderedDict(d)
+        return d
     if t == "list":
         return [to_py(v) for v in node["items"]]
     if t == "tuple":
@@ -717,7 +731,10 @@ def gen_value(rng, depth=0):
     if r < 0.55:
         n = rng.choice([0, 1, 2, 3])
         keys = rng.sample(["a", "b", "c", "data", "k1", "", "x.y"], n)
-        return {"t": "map", "items": [[k, gen_value(rng, depth + 1)] for k in keys]}
+        node = {"t": "map", "items": [[k, gen_value(rng, depth + 1)] for k in keys]}
+        if rng.random() < 0.25:
+            node["as"] = rng.choice(["proxy", "chain", "ordered"])
+        return node
     if r < 0.85:
         return {"t": rng.choice(["list", "list", "tuple"]), "items": [gen_value(rng, depth + 1) for _ in range(rng.choice([0, 1, 2, 3, 4]))]}
     return gen_array(rng)
@@ -746,6 +763,9 @@ def exhaustive_cases():
             yield {"t": "arr0", "v": lf}
             yield {"t": "ndarray", "items": [lf, lf], "dtype": lf["t"], "shape": [2]}
             yield {"t": "ndarray", "items": [{"t": "ndarray", "items": [lf]}], "dtype": lf["t"], "shape": [1, 1]}
+    for kind in ("proxy", "chain", "ordered"):
+        yield {"t": "map", "as": kind, "items": [["k", {"t": "int", "v": str(2**60)}], ["s", {"t": "str", "v": "abc"}]]}
+        yield {"t": "list", "items": [{"t": "map", "as": kind, "items": [["k", {"t": "float", "v": "inf"}]]}]}
     # empty containers
     yield {"t": "map", "items": []}
     yield {"t": "list", "items": []}
